@@ -4,18 +4,12 @@ safe and the rule that looks after that invariant.  A site that is neither disch
 new way for arbitrary input to panic.  Keys use canonical variable names (reference/varnames.json)."""
 
 ROWS = {
-    ('bit_reader::BitReader::<R>::bit_position_in_current_byte', 'sub', 'K8 - var(self).bit_count'):
-        'bit reader state: 0 <= bit_count <= 8 between reads (refilled to 8, consumed down to 0)',
     ('bit_reader::BitReader::<R>::get', 'sub', 'var(cbit) - var(cbits_added)'):
         'loop invariant of BitReader::get: cbits_added < cbit inside the loop',
     ('deflate_reader::DeflateReader::<R>::decode_block', 'sub', 'var(lit_len) - K257'):
         'guarded by the literal / end-of-block tests just above (lit_len >= 257 on this path; C03/T2)',
     ('deflate_reader::DeflateReader::<R>::decode_block', 'sub', 'var(cur_pos) - var(dist)'):
         'C05/X2 dist-check: dist <= bytes produced so far is validated before the copy',
-    ('deflate_reader::DeflateReader::<R>::read_block', 'sub', 'K8 - bit_position_in_current_byte(var(self).input)'):
-        'bit reader state: 0 <= bit_count <= 8 between reads (refilled to 8, consumed down to 0)',
-    ('deflate_reader::DeflateReader::<R>::read_eof_padding', 'sub', 'K8 - bit_position_in_current_byte(var(self).input)'):
-        'bit reader state: 0 <= bit_count <= 8 between reads (refilled to 8, consumed down to 0)',
     ('deflate_reader::DeflateReader::<R>::write_reference', 'sub', 'len(var(self).plain_text) - var(dist)'):
         'C05/X2 dist-check in decode_block: dist <= plain_text.len(); the copy index stays below the growing length',
     ('deflate_reader::DeflateReader::<R>::write_reference', 'index', 'var(self).plain_text[Add(var(start), var(i)).0]'):
@@ -23,8 +17,6 @@ ROWS = {
     ('huffman_encoding::HuffmanOriginalEncoding::get_literal_distance_lengths', 'range', 'var(lengths)[K0..var(self).num_literals]'):
         'header counts as parsed: HLIT+257, HDIST+1, HCLEN+4 (C03/T4 offsets), so the subtraction cannot underflow and the split point lies inside the vector (C05/X2 codes-read)',
     ('huffman_encoding::HuffmanOriginalEncoding::read', 'index', 'const:preflate_constants::TREE_CODE_ORDER_TABLE[var(i)]'):
-        'loop bound HCLEN+4 <= 19 = table length (4-bit field, C03/T4); table entries < 19',
-    ('huffman_encoding::HuffmanOriginalEncoding::read', 'index', '?[const:preflate_constants::TREE_CODE_ORDER_TABLE[var(i)]]'):
         'loop bound HCLEN+4 <= 19 = table length (4-bit field, C03/T4); table entries < 19',
     ('huffman_encoding::HuffmanOriginalEncoding::write', 'sub', 'var(self).num_literals - K257'):
         'header counts as parsed: HLIT+257, HDIST+1, HCLEN+4 (C03/T4 offsets), so the subtraction cannot underflow and the split point lies inside the vector (C05/X2 codes-read)',
@@ -34,11 +26,7 @@ ROWS = {
         'header counts as parsed: HLIT+257, HDIST+1, HCLEN+4 (C03/T4 offsets), so the subtraction cannot underflow and the split point lies inside the vector (C05/X2 codes-read)',
     ('huffman_encoding::HuffmanOriginalEncoding::write', 'index', 'const:preflate_constants::TREE_CODE_ORDER_TABLE[var(i)]'):
         'loop bound HCLEN+4 <= 19 = table length (4-bit field, C03/T4); table entries < 19',
-    ('huffman_encoding::HuffmanOriginalEncoding::write', 'index', 'var(self).code_lengths[const:preflate_constants::TREE_CODE_ORDER_TABLE[var(i)]]'):
-        'loop bound HCLEN+4 <= 19 = table length (4-bit field, C03/T4); table entries < 19',
     ('huffman_encoding::HuffmanOriginalEncoding::write', 'index', 'var(self).code_lengths[var(length)]'):
-        'writer side of the dynamic header: values were produced by the parser of the same header (C07/W4)',
-    ('huffman_encoding::HuffmanOriginalEncoding::write', 'index', 'var(self).code_lengths[discr(var(tree_code))]'):
         'writer side of the dynamic header: values were produced by the parser of the same header (C07/W4)',
     ('huffman_encoding::HuffmanOriginalEncoding::write', 'sub', 'var(length) - var(sub)'):
         'writer side of the dynamic header: values were produced by the parser of the same header (C07/W4)',
@@ -63,8 +51,6 @@ ROWS = {
     ('huffman_helper::decode_symbol', 'sub', 'len(var(huffman_tree)) - K2'):
         'trees come from calculate_huffman_code_tree only (C05/X2 tree rules): complete, >= 2 entries, links stay inside',
     ('huffman_helper::decode_symbol', 'index', 'var(huffman_tree)[Add(branch(get(var(bit_reader), K1)).0, var(i_node_cur)).0]'):
-        'trees come from calculate_huffman_code_tree only (C05/X2 tree rules): complete, >= 2 entries, links stay inside',
-    ('huffman_helper::decode_symbol', 'sub', 'K0 - Add(var(i_node_cur), K1).0'):
         'trees come from calculate_huffman_code_tree only (C05/X2 tree rules): complete, >= 2 entries, links stay inside',
     ('huffman_helper::is_valid_huffman_code_lengths', 'index', 'var(length_count)[var(length)]'):
         'code lengths are validated <= 15 (is_valid_huffman_code_lengths, C07 summary); counters indexed by a length; completeness check bounds the node counts',
